@@ -17,11 +17,12 @@ open Opt OptSem Ir
 variable {w : Nat}
 
 /-- The child state `sub` (with parent chain `pc'`) represents the source body `body`: from every entry pair
-related through the fresh child state `sub0` (chain `pc`), `body` and `sub.insts` behave alike and end in
-states related through `sub`. -/
-def ChildRep (sh sh' : Int) (pc : List (Rebuild w)) (sub0 : Rebuild w) (pc' : List (Rebuild w))
-    (sub : Rebuild w) (body : List (Instr w)) : Prop :=
-  ∀ M0 σE σS, RelAt sh sub0 pc M0 σE σS →
+related through the fresh child state `sub0` (chain `pc`) whose source state satisfies the guard `Gc` (what is
+known about the source states in which the body is really entered), `body` and `sub.insts` behave alike and end
+in states related through `sub`. -/
+def ChildRep (Gc : State w → Prop) (sh sh' : Int) (pc : List (Rebuild w)) (sub0 : Rebuild w)
+    (pc' : List (Rebuild w)) (sub : Rebuild w) (body : List (Instr w)) : Prop :=
+  ∀ M0 σE σS, RelAt sh sub0 pc M0 σE σS → Gc σS →
     Sim (StepQ sh' pc' sub M0 σE) body sub.insts σS σE ∧ ¬ Bad sub.insts σE
 
 /-- The states at the successive heads of the loop `loop c sh body`. -/
